@@ -109,7 +109,7 @@ func checks() map[string]CheckDef {
 				Labels: []string{"C05/structurally-valid-after-fault", "C05/acknowledged-headers-unaltered", "C05/redelivery-not-stuck", "C05/redelivery-reaches-uninterrupted-state", "C05/failed-store-reports-error-and-no-event"}},
 			{Pkg: "database", Func: "HarnessInitRestart", Quick: [][]int64{{1}, {3}}, Thorough: [][]int64{{4}, {5}},
 				Labels: []string{"C05/first-start-succeeds", "C05/first-start-creates-exactly-genesis", "C05/restart-succeeds", "C05/restart-changes-nothing"}},
-			{Pkg: "database", Func: "HarnessRestart", Quick: [][]int64{{0}, {1}, {3}}, Thorough: [][]int64{{4}, {5}},
+			{Pkg: "database", Func: "HarnessRestart", Quick: [][]int64{{0}, {1}, {3}}, Thorough: [][]int64{{0}, {4}, {5}},
 				Labels: []string{"C05/genesis-row-wellformed", "C05/restart-succeeds", "C05/empty-store-gets-exactly-genesis", "C05/restart-changes-nothing"}},
 			{Pkg: "internal/zzverif/c05", Func: "HarnessFaultyReorg", Quick: [][]int64{{4}}, Thorough: [][]int64{{5}},
 				Labels: []string{"C05/structurally-valid-after-fault", "C05/redelivery-reaches-uninterrupted-state"}},
